@@ -102,6 +102,9 @@ LAYERED_SOILS = {
     # coarse top over fine subsoil (contrasting saturation / field capacity between layers), uniform grid
     "sand_over_clay": {"type": "custom", "kw": {"dz": [0.1] * 12},
                        "layers": [[0.3, 0.06, 0.13, 0.36, 3000.0, 100], [0.9, 0.39, 0.54, 0.55, 35.0, 100]]},
+    # fine top over coarse subsoil (the reverse contrast)
+    "clay_over_sand": {"type": "custom", "kw": {"dz": [0.1] * 12},
+                       "layers": [[0.5, 0.32, 0.50, 0.54, 100.0, 100], [0.7, 0.06, 0.13, 0.36, 3000.0, 100]]},
     # layers declared only for the upper part of the grid: compartments below inherit the last layer
     "shallow_layers": {"type": "custom", "kw": {"dz": [0.1] * 14},
                        "layers": [[0.3, 0.10, 0.22, 0.41, 1200.0, 100], [0.4, 0.23, 0.39, 0.50, 125.0, 100]]},
@@ -293,6 +296,13 @@ def hard_cases(rnd, n=None, year=2001):
           iwc={"value": ["FC", "FC"], "depth_layer": [1, 2]}),
         S("Quinoa", seed=rnd.randrange(10 ** 6), soil_spec=LAYERED_SOILS["shallow_layers"], iwc={"value": ["FC", "WP"], "depth_layer": [1, 2]}, irr={"method": 1, "kw": {"SMT": [60] * 4, "WetSurf": 40}},
           field={"mulches": True, "mulch_pct": 50, "f_mulch": 0.5}),
+    ]
+    cases += [
+        # the reverse contrast (fine over coarse): water table standing in the upper layer; net irrigation with roots in the lower layer
+        S("Tomato", seed=rnd.randrange(10 ** 6), soil_spec=LAYERED_SOILS["clay_over_sand"], iwc={"value": ["FC", "FC"], "depth_layer": [1, 2]},
+          gw={"water_table": "Y", "dates": [f"{year}/04/20"], "values": [0.35]}),
+        S("Wheat", seed=rnd.randrange(10 ** 6), soil_spec=LAYERED_SOILS["clay_over_sand"], irr={"method": 4, "kw": {"NetIrrSMT": 70}}, regime="arid",
+          iwc={"wc_type": "Pct", "value": [60, 60], "depth_layer": [1, 2]}),
     ]
     rnd.shuffle(cases)
     return cases if n is None else cases[:n]
